@@ -151,6 +151,21 @@ def _init_checks(ctx, N, cls, pkg, axis, S, name, pcov):
         ctx.ob("R-INIT", f"{name}.{pkg}.n_selected_ after initialisation[{vname}]", nsel is not None and nsel.has_const and nsel.const == want_n, f"n_selected_ = {nsel!r}, expected {want_n}", site, cfg)
         ups = [e for e in I.events[mark:] if e["kind"] == "mutate" and e.get("short", "").endswith("_update_hausdorff") and e.get("how") == "out="]
         ctx.ob("R-INIT", f"{name}.{pkg}.every initial index goes through the distance update[{vname}]", len(ups) == want_n, f"{len(ups)} distance updates for {want_n} initial indices", site, cfg)
+        # the candidate pushed through the k-th initial distance update is the k-th stored index
+        pushed = []
+
+        def rec_update(interp, clo, args, kw, st_, node):
+            pushed.append(args[2] if len(args) > 2 else kw.get("last_selected"))
+            return vconst(None)
+
+        Ir, sr = ctx.interp(stubs={f"_{name}._update_hausdorff": rec_update}), State()
+        orr = ctx.construct(Ir, sr, cls, **kwargs)
+        hr = sr.heap[orr.obj.id]
+        hr["initialize"], hr["_axis"] = hp["initialize"], vconst(axis)
+        ctx.call_method(Ir, sr, orr, "_init_greedy_search", X, y, n)
+        selr = ctx.attr(sr, orr, "selected_idx_")
+        ok_push = len(pushed) == want_n and selr is not None and all(p_ is not None and N.nf(p_.term) == N.nf(T("getitem", selr.term, const(k_))) for k_, p_ in enumerate(pushed))
+        ctx.ob("R-INIT", f"{name}.{pkg}.the distance table is initialised from the stored initial indices, in order[{vname}]", ok_push, f"pushed {[repr(p_.term)[:60] if p_ is not None else None for p_ in pushed]} ; stored {selr.term!r}"[:300], site, cfg)
         if vname in ("int", "list2"):
             t = repr(sel.term)
             # exact: selected_idx_ = zeros with slot k := i_k
